@@ -19,6 +19,8 @@ func init() {
 				reportDispatch(c, "C11.V4.DISPATCH", h.di)
 				ruleSentIsChainResult(c, "C11.V4.SENT-IS-CHAIN-RESULT", h.fn, h.di)
 			}
+			c.R.Floor("C11.V4.RECV-WHOLE", 1)
+			c.R.Floor("C11.CHAIN.SHARED", 2)
 			c.R.Floor("C11.V4.FILTER", 3)
 			c.R.Floor("C11.V4.TYPEMAP", 5)
 			c.R.Floor("C11.V4.STUB", 1)
@@ -39,6 +41,8 @@ func init() {
 				reportDispatch(c, "C12.V6.DISPATCH", h.di)
 				ruleSentIsChainResult(c, "C12.V6.SENT-IS-CHAIN-RESULT", h.fn, h.di)
 			}
+			c.R.Floor("C12.V6.RECV-WHOLE", 1)
+			c.R.Floor("C12.CHAIN.SHARED", 2)
 			c.R.Floor("C12.V6.TYPEMAP", 11)
 			c.R.Floor("C12.V6.FILTER", 2)
 			c.R.Floor("C12.V6.RELAY", 1)
@@ -78,6 +82,7 @@ func init() {
 				}
 				runSafety(c, "C13.LOAD.", fns, pred, "NILPATH", "NILSRC", "FUNCNIL")
 			}
+			c.R.Floor("C13.LOAD.NILSRC", 2)
 			c.R.Floor("C13.CHAIN.LOAD", 2)
 			c.R.Floor("C13.CHAIN.PARSE-ORDER", 1)
 			c.R.Floor("C13.CHAIN.DISPATCH", 2)
@@ -97,6 +102,7 @@ func init() {
 			ruleServerID(c, "C14.")
 			ruleSIDInit(c, "C14.SID.INIT", ro)
 			ruleSIDOwner(c, "C14.SID.OWNER")
+			c.R.Floor("C14.SID.OWNER", 2)
 			c.R.Floor("C14.SID.V6-MATRIX", 2)
 			c.R.Floor("C14.SID.V4-DROP", 1)
 			c.R.Floor("C14.SID.V4-STAMP", 1)
@@ -112,6 +118,8 @@ func init() {
 			rulePoolRetain(c, "C17.POOL.NO-RETAIN") // an emitted option must not share storage that is recycled
 			ruleChainLoad(c, "C17.CHAIN.LOAD")      // the configured values reach the plugin: every setup is called with its own item's arguments
 			ruleOptions(c, "C17.")
+			c.R.Floor("C17.POOL.NO-RETAIN", 2)
+			c.R.Floor("C17.CHAIN.LOAD", 2)
 			c.R.Floor("C17.OPT.GATE", 15)
 			c.R.Floor("C17.OPT.CODE-AGREE", 15)
 			c.R.Floor("C17.OPT.ONCE", 15)
